@@ -6,7 +6,7 @@
 (* residue of the seed split it received - so the value a child holds tells  *)
 (* exactly which parent values its distribution saw.                         *)
 (* Hdr: n, kind, inp, init, sims (per distribution: d, target, params).      *)
-EXTENDS LieselGraph, TraceBatch, TLC, Integers
+EXTENDS LieselGraph, TraceBatch, TLC, Integers, VFloat
 
 RECURSIVE SumSeq(_, _)
 SumSeq(s, i) == IF i > Len(s) THEN 0 ELSE s[i] + SumSeq(s, i + 1)
@@ -76,5 +76,14 @@ TTfpSimulate ==
   /\ Chk("draws_determined_by_the_seed_and_the_current_shapes", Ev.same_as_fresh)
   /\ UNCHANGED <<gvars, svars>> /\ Step
 
-TNext == TTfpSimulate \/ TSimulate \/ TAssign \/ TSetAuto \/ TUpdateAll \/ TSave \/ TRestore
+\* real distributions with a restricted support: every draw lies in the support of its distribution
+TSupportSimulate ==
+  /\ IsEvent("support_simulate")
+  /\ Chk("simulate_with_real_distributions_completed", Ev.crash = "")
+  /\ Chk("draw_lies_in_the_support_of_its_distribution",
+         /\ Ev.null_dim = 2 /\ FLe(Ev.null_rel, "1e-3")      \* no component in the null space of the penalty
+         /\ FLt("0.0", Ev.tau2) /\ Ev.response_finite)
+  /\ UNCHANGED <<gvars, svars>> /\ Step
+
+TNext == TSupportSimulate \/ TTfpSimulate \/ TSimulate \/ TAssign \/ TSetAuto \/ TUpdateAll \/ TSave \/ TRestore
 =============================================================================
